@@ -210,12 +210,27 @@ class CompositeOperationType(Enum):
 
     def update(self, **kwargs: Any) -> None:
         """
-        Updates the required_base_types in the case of Expression type
+        Empty method: the operation types are shared by all operations and are
+        never modified, see expected_state_types
 
         Parameters
         ----------
         **kwargs: Any
-            kwargs, where "state_types" is included
+            kwargs of the operation
+        """
+        return
+
+    def expected_state_types(self, **kwargs: Any) -> List[Any]:
+        """
+        Returns the state classes this operation acts on, in the case of the
+        Expression type they are given by the "state_types" parameter of the
+        operation itself
+
+        Parameters
+        ----------
+        **kwargs: Any
+            kwargs of the operation, where "state_types" is included for
+            the Expression type
         """
         Fock = importlib.import_module("photon_weave.state.fock").Fock
         Polarization = importlib.import_module(
@@ -225,14 +240,17 @@ class CompositeOperationType(Enum):
             "photon_weave.state.custom_state"
         ).CustomState
         if self is CompositeOperationType.Expression:
-            self.expected_base_state_types = list(kwargs["state_types"])
-        for i, state_type in enumerate(self.expected_base_state_types):
+            state_types = list(kwargs["state_types"])
+        else:
+            state_types = list(self.expected_base_state_types)
+        for i, state_type in enumerate(state_types):
             if state_type == "Fock":
-                self.expected_base_state_types[i] = Fock
+                state_types[i] = Fock
             elif state_type == "Polarization":
-                self.expected_base_state_types[i] = Polarization
+                state_types[i] = Polarization
             elif state_type == "CustomState":
-                self.expected_base_state_types[i] = CustomState
+                state_types[i] = CustomState
+        return state_types
 
     def compute_operator(self, dimensions: List[int], **kwargs: Any) -> jnp.ndarray:
         """
